@@ -30,7 +30,7 @@ func genC14(repo string) (string, error) {
 		"SetStoreWeight", "putStoreLocked", "checkStores", "RemoveTombStoneRecords", "deleteStoreLocked", "HandleStoreHeartbeat",
 		"onStoreVersionChangeLocked"} {
 		if _, ferr := cl.Func("RaftCluster", fn); ferr != nil && fn == "putStoreImplLocked" {
-			// the function introduced by fix fdb55d1 is gone: let the obligations (skel_/guards_putStoreImplLocked_ok,
+			// the function introduced by fix b1c60ab is gone: let the obligations (skel_/guards_putStoreImplLocked_ok,
 			// skel_UpdateStoreLabels_ok) fail rather than the translator, so that the driver still runs and shows the replay
 			fmt.Fprintf(&o.sb, "Definition skel_%s : list ev := (* server/cluster/cluster.go: (RaftCluster).%s is ABSENT *)\n  [].\n", fn, fn)
 			continue
